@@ -625,6 +625,102 @@ example :
     finalizeVal true (5/2) 113 + (7 : Rat) * (5/2) ≠ finalizeVal true (5/2) 118 + (2 : Rat) * (5/2) := by
   decide +kernel
 
+
+/-! ### Round 5: the form of a death request; every array a module holds reaches the registry -/
+
+theorem allocated_length (au : List Nat) : ∀ (l l' : List Arr), Allocated au l l' → l'.length = l.length
+  | [], [], _ => rfl
+  | [], _ :: _, h => absurd h (by simp [Allocated])
+  | _ :: _, [], h => absurd h (by simp [Allocated])
+  | _ :: l, _ :: l', h => by simp [allocated_length au l l' h.2]
+
+theorem registerAll_spec : ∀ (l : List Arr) (p p' : People), registerAll p l = .ok p' →
+    p'.auids = p.auids ∧ p'.n = p.n ∧ p'.alive = p.alive ∧ p'.tiDead = p.tiDead ∧
+    ∃ l', p'.states = p.states ++ l' ∧ Allocated p.auids l l'
+  | [], p, p', h => by
+      simp [registerAll] at h; subst h; exact ⟨rfl, rfl, rfl, rfl, [], by simp, trivial⟩
+  | a :: rest, p, p', h => by
+      simp only [registerAll] at h
+      cases hr : registerState p a with
+      | error e => rw [hr] at h; simp at h
+      | ok q =>
+          rw [hr] at h
+          simp only [registerState, bind, Except.bind] at hr
+          cases hg : grow a p.auids none with
+          | error e => rw [hg] at hr; simp at hr
+          | ok a' =>
+              rw [hg] at hr
+              have hq : q = { p with states := p.states ++ [a'] } := by
+                simp [pure, Except.pure] at hr; exact hr.symm
+              obtain ⟨h1, h2, h3, h4, l', h5, h6⟩ := registerAll_spec rest q p' h
+              subst hq
+              refine ⟨h1, h2, h3, h4, a' :: l', by simp [h5], hg, h6⟩
+
+/-- **Every array a module holds is registered (regenerated enumeration).**  `Module.states` lists one entry per array OBJECT
+    among the module's attributes and `People._states` is keyed by the object, so `add_module` + `init_post` link, register and
+    allocate EVERY array the module holds — also arrays that share a state name (with each other or with a built-in state):
+    the registry gains exactly `held.length` arrays, pairwise the allocations of the held ones, and nothing else of the
+    population changes.  (A state-name-keyed enumeration drops all but one array per name: `C10_by_name_enumeration_drops`.) -/
+theorem C10_module_states_registered :
+    Gen.moduleStatesEnum = "all-attributes" ∧ Gen.peopleRegistryKey = "id(state)" ∧
+    ("link_people", "") ∈ Gen.addModuleCalls ∧ ("init_vals", "not _.initialized") ∈ Gen.initPostCalls ∧
+    ∀ (p p' : People) (held : Held), addModule Gen.moduleStatesEnum p held = .ok p' →
+      p'.auids = p.auids ∧ p'.n = p.n ∧ p'.alive = p.alive ∧ p'.tiDead = p.tiDead ∧
+      ∃ l', p'.states = p.states ++ l' ∧ l'.length = held.length ∧
+        Allocated p.auids (held.map (fun h => h.2)) l' := by
+  refine ⟨by decide, by decide, by decide, by decide, ?_⟩
+  intro p p' held h
+  have hm : Gen.moduleStatesEnum = "all-attributes" := by decide
+  rw [hm] at h
+  simp only [addModule, enumStates, if_true] at h
+  obtain ⟨h1, h2, h3, h4, l', h5, h6⟩ := registerAll_spec _ p p' h
+  exact ⟨h1, h2, h3, h4, l', h5, by simpa using allocated_length _ _ _ h6, h6⟩
+
+/-- counterexample for the name-keyed enumeration (kernel-checked): of two arrays with the same state name only one is
+    enumerated, whatever the arrays are; three agents, two dose counters: one counter never enters the registry -/
+theorem C10_by_name_enumeration_drops (a b : Arr) :
+    (enumStates "by-name" [("doses", a), ("doses", b)]).length = 1 ∧
+    okAnd (init 3 []) (fun p =>
+      okAnd (addModule "by-name" p [("doses", fresh .float .nan .unset), ("doses", fresh .float .nan .unset)])
+        (fun p' => p'.states.length == 1) &&
+      okAnd (addModule "all-attributes" p [("doses", fresh .float .nan .unset), ("doses", fresh .float .nan .unset)])
+        (fun p' => p'.states.map (fun x => (x.lenUsed, x.raw.length)) == [(3, 3), (3, 3)])) = true := by
+  refine ⟨by simp [enumStates, lastByName], by decide⟩
+
+/-- **A scalar request names an identifier.**  The regenerated `_convert_key` table sends a bare integer straight to storage
+    (`Gen.intKeyViaActive = false`), so `request_death(u)` with ONE python / numpy integer is `request_death(ss.uids([u]))`:
+    it stamps agent `u`, whoever has been removed before; a Boolean state names its true active agents.  Every timing
+    theorem about `requestDeath` (`C10_death_timing_*`, `C10_step_resolves`) therefore holds for these forms. -/
+theorem C10_request_scalar_names_identifier :
+    codeVariant = .asis ∧
+    (∀ (p : People) (u : Nat), Inv p → u < p.n → requestDeathKey codeVariant p (.int u) = requestDeath p [u]) ∧
+    (∀ (v : Variant) (p : People) (k : Arr), isBoolKind k = true →
+      requestDeathKey v p (.boolArr k) = requestDeath p (trueUids p.auids k)) := by
+  have hv : codeVariant = .asis := by decide
+  refine ⟨hv, ?_, ?_⟩
+  · intro p u inv hu
+    have hlen : u < p.tiDead.raw.length := Nat.lt_of_lt_of_le hu inv.tiDead.le
+    have hcast : castVal p.tiDead.kind (tiVal p.ti) = some (tiVal p.ti) := by rw [inv.tiDeadKind]; exact castVal_float_num _
+    have hpos : pyPos p.tiDead.raw.length (u : Int) = some u := by
+      simp only [pyPos]
+      have h0 : ¬ ((u : Int) < 0) := by omega
+      have h1 : (0 : Int) ≤ (u : Int) ∧ (u : Int) < (p.tiDead.raw.length : Int) := ⟨by omega, by omega⟩
+      simp [h0, h1]
+    rw [hv]
+    simp [requestDeathKey, requestDeath, setItem, convertKey, castRhs, hcast, hpos, rhsOk, inRange, hlen, assignRaw, scatterConst, bind, Except.bind]
+  · intro v p k hk
+    cases v <;> simp [requestDeathKey, requestDeath, setItem, convertKey, hk]
+
+/-- counterexample for the positional reading (kernel-checked): three agents, agent 0 dies and is removed; a scalar request
+    for identifier 1 under the positional variant stamps `auids[1] = 2`: agent 2 dies, agent 1 — the one named — survives;
+    under the code's variant agent 1 dies -/
+theorem C10_positional_request_counterexample :
+    let p := run (emptyPeople []) [.grow 3 none, .requestDeath [0], .stepDie, .updateResults, .finishStep]
+    p.auids = [1, 2] ∧
+    okAnd (requestDeathKey .spec p (.int 1)) (fun p' => deathUids p' == [2]) = true ∧
+    okAnd (requestDeathKey codeVariant p (.int 1)) (fun p' => deathUids p' == [1]) = true := by
+  decide
+
 /-! ### Population flow in the composed step model
 
 `SimCore.simStep` (Model/SimCore.lean) is one step of an SIR simulation in the phase order regenerated from
